@@ -537,6 +537,7 @@ def run(report, p):
     r7.check(True, dh, dh.node, "")
 
     # ---- rules shared with other properties (same mechanism, same rule, reported under every property it can break)
+    include_rules(report, p, 'c03', ['R3.11'], 'verify -dh reports every mismatch through the logger before it decides its exit code')
     include_rules(report, p, 'c07', ['R7.1', 'R7.2', 'R7.3', 'R7.4'], 'verify -dh recomputes directory hashes with the same context wiring')
     include_rules(report, p, 'c03', ['R3.9'], 'verify dispatches -dh to its worker on every path')
     include_rules(report, p, 'c01', ['R1.1'], 'file digests feeding the directory hashes must cover the whole file')
